@@ -2441,6 +2441,16 @@ static Type check_expression_impl(ASTNode *expr, Environment *env) {
             /* Check each field */
             for (int i = 0; i < expr->as.struct_literal.field_count; i++) {
                 const char *field_name = expr->as.struct_literal.field_names[i];
+
+                /* The count matches the definition, so a repeated name also means a missing field */
+                for (int k = 0; k < i; k++) {
+                    if (strcmp(expr->as.struct_literal.field_names[k], field_name) == 0) {
+                        g_typecheck_error_diagnostics++;
+                        fprintf(stderr, "Error at line %d, column %d: Field '%s' given twice in literal of struct '%s'\n",
+                                expr->line, expr->column, field_name, expr->as.struct_literal.struct_name);
+                        return TYPE_UNKNOWN;
+                    }
+                }
                 
                 /* Find matching field in struct definition */
                 int field_index = -1;
